@@ -302,6 +302,105 @@ def _inline_site(fn, is_static, stmt, call, recv, caller_self, K):
     return None
 
 
+def _free_globals(fn):
+    """Names the function reads that are neither its parameters nor bound
+    in it (module-level names and builtins)."""
+    import builtins
+    bound = {a.arg for a in fn.args.args}
+    for x in ast.walk(fn):
+        if isinstance(x, ast.Name) and isinstance(x.ctx, (ast.Store,
+                                                          ast.Del)):
+            bound.add(x.id)
+        elif isinstance(x, ast.ExceptHandler) and x.name:
+            bound.add(x.name)
+        elif isinstance(x, ast.comprehension):
+            for t in ast.walk(x.target):
+                if isinstance(t, ast.Name):
+                    bound.add(t.id)
+    return {x.id for x in ast.walk(fn) if isinstance(x, ast.Name) and
+            isinstance(x.ctx, ast.Load) and x.id not in bound and
+            not hasattr(builtins, x.id)}
+
+
+def _module_bindings(tree):
+    """Module-level name -> a text that identifies what it is bound to when
+    that is an import (the only bindings two modules can share)."""
+    out = {}
+    for st in tree.body:
+        if isinstance(st, ast.Import):
+            for a in st.names:
+                out[(a.asname or a.name).split('.')[0]] = 'import ' + (
+                    a.name if a.asname else a.name.split('.')[0])
+        elif isinstance(st, ast.ImportFrom):
+            for a in st.names:
+                out[a.asname or a.name] = 'from %s%s import %s' % (
+                    '.' * st.level, st.module or '', a.name)
+    return out
+
+
+def _hoist_tests(tree, name, K):
+    """``if h(..):`` -> ``t = h(..); if t:`` and ``while h(..): body`` ->
+    ``while True: t = h(..); if not t: break; body`` for calls of ``name``
+    (also under one ``not``).  Evaluation order is unchanged: the test is
+    the first thing the statement evaluates."""
+    def the_call(test):
+        t = test.operand if isinstance(test, ast.UnaryOp) and isinstance(
+            test.op, ast.Not) else test
+        if isinstance(t, ast.Call):
+            f = t.func
+            nm = f.attr if isinstance(f, ast.Attribute) else (
+                f.id if isinstance(f, ast.Name) else None)
+            if nm == name:
+                return t
+        return None
+
+    def with_temp(test, tmp):
+        ref = ast.Name(id=tmp, ctx=ast.Load())
+        if isinstance(test, ast.UnaryOp):
+            return ast.UnaryOp(op=ast.Not(), operand=ref)
+        return ref
+
+    def fix(stmts):
+        out = []
+        for st in stmts:
+            for fld in ('body', 'orelse', 'finalbody'):
+                if isinstance(getattr(st, fld, None), list) and not \
+                        isinstance(st, (ast.FunctionDef, ast.ClassDef)):
+                    setattr(st, fld, fix(getattr(st, fld)))
+            if isinstance(st, ast.Try):
+                for h in st.handlers:
+                    h.body = fix(h.body)
+            if isinstance(st, (ast.FunctionDef, ast.ClassDef)):
+                st.body = fix(st.body)
+            if isinstance(st, ast.If) and the_call(st.test) is not None:
+                K.n += 1
+                tmp = '_x%d_test' % K.n
+                out.append(ast.Assign(
+                    targets=[ast.Name(id=tmp, ctx=ast.Store())],
+                    value=the_call(st.test), lineno=st.lineno))
+                st.test = with_temp(st.test, tmp)
+                out.append(st)
+            elif isinstance(st, ast.While) and not st.orelse and \
+                    the_call(st.test) is not None:
+                K.n += 1
+                tmp = '_x%d_test' % K.n
+                asg = ast.Assign(
+                    targets=[ast.Name(id=tmp, ctx=ast.Store())],
+                    value=the_call(st.test), lineno=st.lineno)
+                neg = with_temp(st.test, tmp)
+                neg = neg.operand if isinstance(neg, ast.UnaryOp) else \
+                    ast.UnaryOp(op=ast.Not(), operand=neg)
+                st.body = [asg, ast.If(test=neg, body=[ast.Break()],
+                                       orelse=[])] + st.body
+                st.test = ast.Constant(value=True)
+                out.append(st)
+            else:
+                out.append(st)
+        return out
+    tree.body = fix(tree.body)
+    ast.fix_missing_locations(tree)
+
+
 def _own_receiver(n, parents, cls):
     """For ``recv.name`` whose name is defined in several classes: True when
     the receiver is the ``self`` of a method of ``cls`` or ``cls`` itself,
@@ -332,7 +431,7 @@ def _own_receiver(n, parents, cls):
     return c is cls
 
 
-def deextract(modules, canon, renamed_new_names):
+def deextract(modules, canon, renamed_new_names, api_classes=()):
     """modules: {name: ast.Module}; canon: canonical qualnames; returns the
     list of (helper qualname, number of sites inlined, kept as function)."""
     K = _Ctx()
@@ -354,8 +453,12 @@ def deextract(modules, canon, renamed_new_names):
             count[fn.name] = count.get(fn.name, 0) + 1
         progress = False
         for mod, cls, fn, q in cands:
-            if q in canon or q in renamed_new_names or \
-                    not _is_private(fn.name) or not _inlinable(fn):
+            dunder = fn.name.startswith('__') and fn.name.endswith('__')
+            internal = _is_private(fn.name) or (
+                cls is not None and cls.name not in api_classes and
+                not dunder)
+            if q in canon or q in renamed_new_names or not internal or \
+                    not _inlinable(fn):
                 continue
             ambiguous = count[fn.name] != 1
             if ambiguous and cls is None:
@@ -363,6 +466,10 @@ def deextract(modules, canon, renamed_new_names):
             is_static = cls is None or any(
                 isinstance(d, ast.Name) and d.id == 'staticmethod'
                 for d in fn.decorator_list)
+            # a call that is the whole test of an ``if`` / ``while`` (possibly
+            # negated) is first bound to a temporary in front of the test
+            for m2, tree in modules.items():
+                _hoist_tests(tree, fn.name, K)
             # all syntactic call sites
             sites = []
             other_use = False
@@ -393,7 +500,17 @@ def deextract(modules, canon, renamed_new_names):
                 continue
             done = 0
             failed = 0
+            free = _free_globals(fn)
+            home = _module_bindings(modules[mod])
             for tree, parents, call in sites:
+                if tree is not modules[mod]:
+                    # another module: every global the helper reads must be
+                    # the same thing there (same import statement)
+                    there = _module_bindings(tree)
+                    if any(home.get(nm) is None or
+                           home.get(nm) != there.get(nm) for nm in free):
+                        failed += 1
+                        continue
                 stmt = parents.get(id(call))
                 ok = isinstance(stmt, (ast.Expr, ast.Return)) and \
                     stmt.value is call or (
